@@ -152,6 +152,18 @@ static int as_escaped_char(int c, int chr)
     }
 }
 
+//! Returns whether the scanner reads @p s as something else than an identifier
+static int is_reserved_word(const char* s)
+{
+    static const char* const words[] = { "true", "false", "nil", "inf",
+                                         "immediately", "now",
+                                         "MIDI", "BLOB" };
+    for(size_t i = 0; i < sizeof(words)/sizeof(words[0]); ++i)
+        if(!strcmp(s, words[i]))
+            return 1;
+    return 0;
+}
+
 // internal function for rtosc_print_arg_val
 static void break_string(char** buffer, size_t bs, int* cols_used)
 {
@@ -588,6 +600,9 @@ size_t rtosc_print_arg_val(const rtosc_arg_val_t *arg,
                     plain = false;
                 else for(const char* s = val->s + 1; *s && plain; ++s)
                     plain = (*s == '_' || (isalnum(*s)));
+                // reserved words would be scanned as other types
+                if(plain && is_reserved_word(val->s))
+                    plain = false;
             }
             else plain = false;
 
@@ -966,7 +981,7 @@ static const char* skip_word(const char* exp, const char** str)
     int match = (!strncmp(exp, cur, explen) &&
                  (   !cur[explen]
                   || cur[explen] == '/' || cur[explen] == ']'
-                  || cur[explen] == '.'
+                  || cur[explen] == '.' || cur[explen] == '%'
                   || isspace(cur[explen])));
     if(match) {
         *str += explen;
